@@ -160,9 +160,8 @@ Qed.
 
 Lemma parse_description_single t : type_ok t = true -> parse_description (to_str t) = Ok [t].
 Proof.
-  intros H. destruct (type_ok_parts _ H) as (Hw & Hd & Hl). apply parse_description_spec. split.
-  - destruct (to_str_nonempty t) as (c & r & ->). discriminate.
-  - unfold sig_of_types. cbn [forallb]. rewrite Hw, Hd. cbn [to_str_list flat_map]. rewrite app_nil_r. auto.
+  intros H. destruct (type_ok_parts _ H) as (Hw & Hd & Hl). apply parse_description_spec.
+  unfold sig_of_types. cbn [forallb]. rewrite Hw, Hd. cbn [to_str_list flat_map]. rewrite app_nil_r. auto.
 Qed.
 
 Lemma has_at_of_slice buf off x : slice buf off (len x) = x -> off + len x <= len buf -> has_at buf off x.
